@@ -88,7 +88,8 @@ P("C15", "mirfacts+srcfacts+rules",
   "borrow and external partial function (serde_rename_rule) is enumerated and must be discharged by a guard rule or one of the named, "
   "side-condition-checked exemptions; string slice bounds are evaluated symbolically as offsets of find/rfind/char_indices results plus the "
   "matched pattern's byte length, so a bound inside a multi-byte character or beyond the match is reported with its derivation.  "
-  "Exhaustive over reachable sites (≈150); panics inside third-party crates and resource exhaustion are not claimed.",
+  "Every natural loop of the crate's reachable code is shown to have a progress candidate (a necessary condition of termination, not a proof).  "
+  "Exhaustive over reachable sites (≈150) and loops (71); panics inside third-party crates, recursion depth and resource exhaustion are not claimed.",
   "std's documented guarantees for find/rfind/char_indices offsets; string lengths < isize::MAX; type strings < 2^31 bytes", b=True)
 
 P("C03", "mirfacts+srcfacts+rules",
